@@ -127,6 +127,22 @@ def replay_insn(mnemonic, fvals, tree):
     return dict(jobs=[job], source=src, expected=[exp[0], exp[1], 2 + 2 * n_ext], observed=obs, reproduced=not ok)
 
 
+def replay_accumulator_name(o, tree):
+    """a symbol spelled like the unit's name as FP11 operand: an accumulator name encodes that accumulator, anything else is an ordinary
+    symbol (defined here) - never an internal exception"""
+    name = o["unit"].split("[", 1)[1].rstrip("]")
+    if not name.replace("_", "a").isalnum():
+        return None
+    srcs = ["%s: ldf %s, ac1\n" % ("lab" if name.lower()[:2] == "ac" and name[2:] in list("012345") else name, name), "ldf (r0), %s\n" % name]
+    jobs = [{"kind": "asm", "sources": [s_]} for s_ in srcs]
+    res = driver.native(jobs, tree)
+    acc = name.lower()[:2] == "ac" and name[2:] in list("012345")
+    exp0 = ["ok", (0o172400 + 0o100 + int(name[2:])).to_bytes(2, "little").hex()] if acc else ["ok", None]
+    obs = [[r["status"], r.get("code_hex") or r.get("exc")] for r in res]
+    bad = any(r["status"] == "crash" for r in res) or (acc and obs[0] != exp0) or (not acc and res[0]["status"] != "ok")
+    return dict(jobs=jobs, expected="accumulator names encode the accumulator; other names are ordinary symbols; never a crash", observed=obs, reproduced=bad)
+
+
 def replay_rel(mnemonic, tree):
     """every rm/frm operand spelled as a forward-referenced PC-relative label (evaluated late): each extension word must be
     target - (address of that word + 2), i.e. every operand must see ITS OWN rel_address when its closure finally runs"""
@@ -163,6 +179,8 @@ def replay(o, tree):
     cfg = o.get("cfg") or {}
     w = o.get("witness") or {}
     from spec import pdp11_isa as isa
+    if o.get("unit", "").startswith("try_accumulator_from_symbol["):
+        return replay_accumulator_name(o, tree)
     if cfg.get("kind") == "insn" and (o.get("label", "").startswith("rel-address-operand") or o.get("label", "").startswith("state-otherwise-unchanged")):
         r = replay_rel(cfg["mnemonic"], tree)
         if r is not None and r["reproduced"]:
